@@ -160,6 +160,29 @@ fn set_flag(f: &mut bool) {
     *f = true;
 }
 
+// correlated tests of one immutable bool
+pub fn correlated_good(d: &Dev, read_only: bool) -> Result<(), E> {
+    let needs = d.check();
+    if needs && read_only {
+        return Err(E::Other);
+    }
+    if needs {
+        d.mutate();
+    }
+    Ok(())
+}
+pub fn correlated_bad(d: &Dev, read_only: bool) -> Result<(), E> {
+    let needs = d.check();
+    if needs && read_only {
+        return Err(E::Other);
+    }
+    let other = d.horizon() > 3;
+    if other {
+        d.mutate();
+    }
+    Ok(())
+}
+
 // ---- P6 DISCARD
 pub fn discard_good(d: &Dev) -> Result<(), E> {
     d.flush()?;
@@ -184,6 +207,13 @@ pub fn held_good(d: &Dev) {
 pub fn held_bad(d: &Dev) {
     let g = d.lock.lock().unwrap();
     drop(g);
+    d.mutate();
+}
+pub fn held_branch_bad(d: &Dev, c: bool) {
+    let g = d.lock.lock().unwrap();
+    if c {
+        drop(g);
+    }
     d.mutate();
 }
 pub fn held_temp_bad(d: &Dev) {
